@@ -94,10 +94,9 @@ func genSymOps(g *vlib.G) {
 		// CopySym does not resize.
 		symCase(fmt.Sprintf("CopySym a=%s", ka.name), "CopySym", []string{"sized", "view"}, func(t *vlib.T, v *verdict, state string) {
 			for l := 1; l <= n; l++ {
-				for _, d := range []int{0, 1, -1} {
-					ml := l + d
+				for ml := 1; ml <= n+1; ml++ { // every receiver size against every source size
 					a := ka.make(l, l, 1, famMixed)
-					if a == nil || ml < 1 {
+					if a == nil {
 						continue
 					}
 					rc := newSymRecv(state, ml, 0)
@@ -402,10 +401,9 @@ func genTriOps(g *vlib.G) {
 			triCase(fmt.Sprintf("TriCopy a=%s upper=%v", ka.name, upper), "TriCopy", []string{"sized", "view"}, func(t *vlib.T, v *verdict, state string) {
 				for r := 1; r <= n; r++ {
 					for c := 1; c <= n; c++ {
-						for _, d := range []int{0, 1, -1} {
+						for ml := 1; ml <= n+1; ml++ { // every receiver size against every source shape
 							a := ka.make(r, c, 1, famNonzero)
-							ml := max(r, c) + d
-							if a == nil || ml < 1 {
+							if a == nil {
 								continue
 							}
 							rc := newTriRecv(state, ml, upper, 0)
